@@ -76,7 +76,14 @@ fn thread_call(rng: &mut Rng, tid: usize, sc: &mut Scenario, have_files: &mut bo
                 c.faults.push(Fault {
                     path: rng.pick(&files).clone(),
                     nth: None,
-                    kind: if rng.coin() { FaultKind::Enoent } else { FaultKind::InvalidUtf8Tail },
+                    // static per-path conditions of every kind: missing, unreadable after a successful open, not UTF-8
+                    kind: match rng.below(5) {
+                        0 => FaultKind::Enoent,
+                        1 => FaultKind::InvalidUtf8Tail,
+                        2 => FaultKind::IsDir,
+                        3 => FaultKind::EioAt { k: rng.usize_below(20) },
+                        _ => FaultKind::Eacces,
+                    },
                 });
             }
         }
